@@ -830,6 +830,9 @@ pub fn main() -> i32 {
                 if let Some(v) = arg(line, "logpt") {
                     sched::LOG_POINTS.store(v == "1", Ordering::SeqCst);
                 }
+                if let Some(v) = arg(line, "poison") {
+                    calloc::POISON.store(v == "1", Ordering::SeqCst);
+                }
                 if let Some(v) = arg(line, "jitter") {
                     sched::JITTER.store(v.parse().unwrap_or(0), Ordering::SeqCst);
                 }
